@@ -10,6 +10,7 @@ import OpmVerif.Proofs.EclBin
 import OpmVerif.Proofs.EclFmt
 import OpmVerif.Proofs.EclFmtFile
 import OpmVerif.Proofs.FmtReal
+import OpmVerif.Proofs.FmtRealFile
 
 namespace OpmVerif.Props.C07
 open OpmVerif.Ecl
@@ -142,6 +143,18 @@ theorem formatted_real_value_printed_precision (scis : List FmtReal.Sci)
           some (.toks toks) ∧
       toks.map FmtReal.tokenNumber = scis.map FmtReal.sciNumberReal :=
   FmtReal.real_array_numbers scis h tail ht
+
+/-- The same end to end inside a file: the entry the index builds for a DOUB array (buffer of
+`sizeOnDiskFormatted + 1` characters, NUL padded at the end of the file), whatever arrays
+follow it or none, yields exactly the printed numbers. -/
+theorem formatted_doub_in_file (a : EclFmt.FArr) (scis : List FmtReal.Sci) (hs : ∀ s ∈ scis, FmtReal.SciOk 13 s)
+    (ht : a.t = .doub) (hf : a.fields = scis.map fun s => FmtReal.doubField (FmtReal.eclDoub s))
+    (rest : List EclFmt.FArr) (pos : Nat) :
+    ∃ toks, EclFmt.loadEntry ⟨a.name, (a.size : Int), a.t,
+        EclFmt.padTo (a.body.length + 1) ((a.body ++ EclFmt.encodeFmtFile rest).take (a.body.length + 1)), pos⟩ =
+          some (.toks toks) ∧
+      toks.map FmtReal.tokenNumber = scis.map FmtReal.sciNumber :=
+  FmtReal.doub_entry_numbers a scis hs ht hf rest pos
 
 /-- IX flavour (`set_ix()`): the column holds the `snprintf` text itself (`d0.d1…dp E±xx`), for
 REAL (`p = 7`) and DOUB (`p = 13`); the number `strtod` recognises in the reader's token is the
